@@ -250,6 +250,16 @@ theorem hasId_ok (x : Xml) (h : hasId x = true) : ∃ id, x.attrReq (lit "w") (l
   | error e => simp [hid, Except.isOk] at h
   | ok id => exact ⟨id, rfl⟩
 
+theorem foldIds_T (f : DC → Str → M DC) (hf : ∀ s, TInv s → ∀ id, ∃ s', f s id = .ok s' ∧ TInv s') :
+    ∀ (ms : List Xml), ms.all hasId = true → ∀ (s : DC), TInv s → ∃ s', foldIds f s ms = .ok s' ∧ TInv s'
+  | [], _, s, h => ⟨s, rfl, h⟩
+  | m :: ms, hm, s, h => by
+    simp only [List.all_cons, Bool.and_eq_true] at hm
+    obtain ⟨id, hid⟩ := hasId_ok m hm.1
+    obtain ⟨s1, h1, t1⟩ := hf s h id
+    obtain ⟨s', h', t'⟩ := foldIds_T f hf ms hm.2 s1 t1
+    exact ⟨s', by simp only [foldIds, hid, ok_bind, h1, h'], t'⟩
+
 theorem openStep_T (cfg : PartCfg) (s : DC) (h : TInv s) (x : Xml) (c : Bool) (roots : List (List Nest))
     (hv : validT x = true) (he : x.isElem = true)
     (hroots : ∀ r ∈ roots, ∀ p ∈ leafParsL r, p.sty okStyles) :
@@ -285,11 +295,21 @@ theorem openStep_T (cfg : PartCfg) (s : DC) (h : TInv s) (x : Xml) (c : Bool) (r
     exact withTrue_T (noteLabel_T s h x _ hw hE2)
   · rename_i heq; simp only [heq] at hE2
     exact withTrue_T (noteLabel_T s h x _ hw hE2)
-  · obtain ⟨t, ht⟩ := rootsText_ok roots hroots
+  · rename_i heq; simp only [heq] at hE2
+    obtain ⟨t, ht⟩ := rootsText_ok roots hroots
     obtain ⟨rn, hrn⟩ := C13_link_never_raises cfg x t
+    obtain ⟨qs, hqs⟩ := wq_ok x hw "commentRangeStart"
+    obtain ⟨qe, hqe⟩ := wq_ok x hw "commentRangeEnd"
+    unfold linkMarkersOK at hE2
+    simp only [hqs, hqe, Bool.and_eq_true] at hE2
     apply withFalse_T
-    simp only [ht, hrn, ok_bind]
-    exact insertNewRun_T cfg.html s h rn
+    unfold openHyperlink
+    simp only [ht, hqs, ok_bind]
+    obtain ⟨s1, h1, t1⟩ := foldIds_T DC.startRange (fun a ha id => startRange_T a ha id) _ hE2.1 s h
+    simp only [h1, ok_bind, hrn]
+    obtain ⟨s2, h2, t2⟩ := insertNewRun_T cfg.html s1 t1 rn
+    simp only [h2, ok_bind, hqe]
+    exact foldIds_T DC.endRange (fun a ha id => endRange_T a ha id) _ hE2.2 s2 t2
   · have hk : ∀ k ∈ x.kids, k.isElem = true → wBound k := fun k hk hke => validT_wBound k (validL_mem x.kids hK k hk) hke
     obtain ⟨t, ht⟩ := C13_checkbox_never_raises x hw hk
     apply withTrue_T
